@@ -21,6 +21,7 @@ from __future__ import annotations
 
 import hashlib
 import json
+import re
 import os
 import subprocess
 
@@ -40,6 +41,8 @@ FLOATS = {"float", "double", "long double"}
 
 def canon(qt):
     t = qt.replace("const ", "").replace("volatile ", "").replace(" const", "").strip()
+    # a non-deduced parameter type `typename __redu_identity<T>::type` is T (clang prints the sugared name on instantiations)
+    t = re.sub(r"(?:typename\s+)?__redu_identity<\s*(.+?)\s*>::type", r"\1", t)
     while t.endswith("&"):
         t = t[:-1].strip()
     return t
